@@ -13,6 +13,15 @@ CLAIMED = {
         "covered (they build HashMaps/iterate Vecs and are outside both engines, DESIGN section 3). One known finding: nested operator expressions lose their parentheses "
         "(`(a + b) * c` -> `a + b * c`), recorded in known_findings.json; any other mis-grouping or operand/operator mix-up is still reported.",
    ref="DESIGN.md section 0.5, C01"),
+ "C06": dict(
+   cat="model_checking", tech="MIR->SMT parity obligations (cvc5/z3) + Kani/CBMC harnesses on the core string kernels and their run-time wrappers",
+   text="Solver-based, bounded, KERNEL of the property: the functions the compile-time evaluator calls (incan_core numeric kernels, incan_core::strings::"
+        "str_char_at / str_slice) and the functions a function body executes at run time (incan_stdlib kernels and wrappers str_index / str_slice) are "
+        "decided to give the same value and the same error for every argument: numeric parity over all i64 pairs / all floats (quick: f32), string "
+        "index/slice against the same CPython oracle for every i64 / Option<i64> argument on strings mixing 1-4-byte scalars.",
+   note="Kernel-only: the const evaluator's own dispatch (which operation it applies, its type/kind decisions, cycle detection) and const emission are "
+        "TypeChecker/TokenStream code and are NOT covered; what is covered is that the shared core and the runtime library cannot drift apart.",
+   ref="DESIGN.md section 0.5, C06"),
  "C13": dict(
    cat="model_checking", tech="bounded model checking of the compiled code (Kani/CBMC, symbolic identifier) + enum-level MIR symbolic execution of the emission plan",
    text="Solver-based, bounded, KERNEL of the property: (a) for EVERY identifier-shaped name of 2..8 bytes the keyword table used for escaping (is_keyword) recognises every "
@@ -78,7 +87,6 @@ CLAIMED = {
 NA = {
  "C02": "the oracle is rustc on generated text; a solver cannot encode rustc and the generator is unreachable as for C01",
  "C03": "every rule is a TypeChecker method over SymbolTable (HashMap scopes, dozens of inserts at construction); out of CBMC's reach by the HashMap measurement",
- "C06": "the const evaluator is a TypeChecker method and const emission returns TokenStream; the only reachable piece (runtime string wrappers = core kernels) is decided under C05",
  "C08": "needs formatter -> lexer -> parser on symbolic ASTs; measured: formatter alone on a one-function AST > 25 min, round trip on a 1-char literal > 19 min",
  "C09": "same pipeline twice; --check/--diff not writing files is file-system behaviour with no encodable unit",
  "C10": "needs two lexer runs on symbolic text; measured: one run on 3 symbolic layout characters does not finish (20+ min, 6 GB)",
@@ -116,7 +124,7 @@ for pid in sorted(CLAIMED):
             "thorough_cmd": f"./check {pid} --tier thorough",
             "evidence_file": f"/verif/evidence/{pid}.json",
             "replay_cmd_template": f"./check {pid} --replay {{path}}",
-            "engine": {"C04": "E2 mirsmt + E1 kani", "C01": "E2 mirsmt + E1 kani", "C07": "E2 mirsmt + E1 kani", "C13": "E1 kani + E2 mirsmt"}.get(pid, "E1 kani"),
+            "engine": {"C04": "E2 mirsmt + E1 kani", "C06": "E2 mirsmt + E1 kani", "C01": "E2 mirsmt + E1 kani", "C07": "E2 mirsmt + E1 kani", "C13": "E1 kani + E2 mirsmt"}.get(pid, "E1 kani"),
             "level_claimed": {"category": c["cat"], "text": c["text"], "design_ref": c["ref"]},
             "level_note": c["note"],
             "technique": c["tech"],
